@@ -1,0 +1,40 @@
+//go:build verif
+
+// Contracts for package y, read by the verifier in /verif (gvc). This file contains no code:
+// it is compiled only under the build tag "verif" and then only declares the package.
+// Syntax: see /verif/DESIGN.md, section 2 and appendix A.
+
+package y
+
+//@ spec uk(k []byte) []byte = k[:len(k)-8]
+//@ spec ver(k []byte) uint64 = ^be64(k, len(k)-8)
+
+//@ func KeyWithTs
+//@   props C20
+//@   ensures[shape] len(result) == len(key)+8 && fresh(result)
+//@   ensures[userkey] bytes(result[:len(key)]) == bytes(key)
+//@   ensures[version] be64(result, len(key)) == ^ts
+//@   ensures[ver] ver(result) == ts
+
+//@ func ParseTs
+//@   props C20
+//@   ensures[short] len(key) <= 8 ==> result == 0
+//@   ensures[version] len(key) > 8 ==> result == ver(key)
+
+//@ func ParseKey
+//@   props C20
+//@   ensures[short] len(key) < 8 ==> result == nil
+//@   ensures[prefix] len(key) >= 8 ==> result == key[:len(key)-8]
+
+//@ func CompareKeys
+//@   props C20
+//@   requires len(key1) >= 8 && len(key2) >= 8
+//@   ensures[userkey-first] lexcmp(uk(key1), uk(key2)) != 0 ==> result == lexcmp(uk(key1), uk(key2))
+//@   ensures[then-version] lexcmp(uk(key1), uk(key2)) == 0 ==> result == lexcmp(key1[len(key1)-8:], key2[len(key2)-8:])
+//@   ensures[version-desc] lexcmp(uk(key1), uk(key2)) == 0 ==> (result < 0 <==> ver(key1) > ver(key2)) && (result == 0 <==> ver(key1) == ver(key2))
+//@   ensures[sign] result == -1 || result == 0 || result == 1
+
+//@ func SameKey
+//@   props C20
+//@   requires len(src) >= 8 && len(dst) >= 8
+//@   ensures[same] result <==> (len(src) == len(dst) && bytes(uk(src)) == bytes(uk(dst)))
